@@ -132,6 +132,16 @@ class CallMixin:
             t = rt.strip_ref()
             v, lo, hi = [self.hoist_pure(t, self.value_of(a)) for a in args]
             return f'(({v} < {lo}) ? {lo} : (({hi} < {v}) ? {hi} : {v}))'
+        if name == 'zero' and not args:
+            return '0'
+        if name in ('max', 'min', 'lowest') and not args:
+            c = self.ctype(rt.strip_ref())
+            lim = {'int64_t': ('INT64_MAX', 'INT64_MIN'), 'uint64_t': ('UINT64_MAX', '0'), 'uint32_t': ('UINT32_MAX', '0'),
+                   'int': ('INT32_MAX', 'INT32_MIN'), 'uint16_t': ('UINT16_MAX', '0'), 'uint8_t': ('UINT8_MAX', '0'),
+                   'int32_t': ('INT32_MAX', 'INT32_MIN'), 'int16_t': ('INT16_MAX', 'INT16_MIN')}.get(c)
+            if lim is None:
+                raise LoweringError(f'numeric limit of {c}')
+            return f'(({c}){lim[0] if name == "max" else lim[1]})'
         if name in LIBC_PASS:
             self.helpers.add(LIBC_PASS[name])
             return f'{LIBC_PASS[name]}({", ".join(self.ex(a) for a in args)})'
@@ -582,7 +592,36 @@ class CallMixin:
     def e_CXXRewrittenBinaryOperator(self, n):
         # a != b rewritten as !(a == b); a < b as (a <=> b) < 0
         inner = n['inner'][0]
+        if inner.get('kind') == 'CXXOperatorCallExpr':
+            rd, _ = self.callee_decl(inner)
+            op = rd['name'].replace('operator', '')
+            args = inner['inner'][1:]
+
+            def spaceship(e):
+                while e.get('kind') in ('ImplicitCastExpr', 'ParenExpr', 'MaterializeTemporaryExpr'):
+                    e = e['inner'][0]
+                if e.get('kind') == 'CXXOperatorCallExpr' and self.callee_decl(e)[0]['name'] == 'operator<=>':
+                    return e['inner'][1:]
+                return None
+            if op in ('<', '>', '<=', '>=') and len(args) == 2:
+                ab = spaceship(args[0])
+                if ab is not None:
+                    return self.cmp_operands(op, ab[0], ab[1], n)
+                ba = spaceship(args[1])
+                if ba is not None:
+                    # 0 op (x <=> y)  ==  (x <=> y) flip(op) 0
+                    flip = {'<': '>', '>': '<', '<=': '>=', '>=': '<='}[op]
+                    return self.cmp_operands(flip, ba[0], ba[1], n)
         return self.ex(inner)
+
+    def cmp_operands(self, op, a, b, n):
+        ta, tb = self.tyof(a), self.tyof(b)
+        fa, fb = self.family(ta), self.family(tb)
+        if fa in ('duration', 'time_point') and fb in ('duration', 'time_point'):
+            return self.chrono_op(op, [a, b], n)
+        if fa == 'prim' and fb == 'prim':
+            return f'({self.ex(a)} {op} {self.ex(b)})'
+        raise LoweringError(f'three-way comparison on {ta!r} / {tb!r}')
 
     # ---------------------------------------------------------------- construction
     def e_CXXConstructExpr(self, n):
@@ -597,7 +636,9 @@ class CallMixin:
             return self.zero(t)
         a0t = self.tyof(args[0])
         f0 = self.family(a0t)
-        if len(args) == 1 and self.ctype(a0t.strip_ref()) == self.ctype(t):
+        if fam == 'optional' and repr(a0t.strip_ref()) == 'std::nullopt_t':
+            return f'(({self.ctype(t)}){{0}})'
+        if len(args) == 1 and self.same_ctype(a0t.strip_ref(), t):
             # copy / move construction
             if fam in ('vector', 'string') and args[0].get('valueCategory') == 'lvalue':
                 et = t.args[0]
@@ -706,6 +747,17 @@ class CallMixin:
             self.cur['maythrow'] = True
             self.pre.append(self.exc_check())
         return tmp
+
+    def same_ctype(self, a, b):
+        try:
+            fa, fb = self.family(a), self.family(b)
+            if fa != fb:
+                return False
+            if fa in ('duration', 'time_point'):
+                return repr(a) == repr(b)
+            return self.ctype(a) == self.ctype(b)
+        except LoweringError:
+            return False
 
     def ctor_sig_match(self, d, ctor):
         if not ctor:
